@@ -13,6 +13,7 @@ from lib import common as C
 from lib import pool
 from lib.runner import Outcome
 from gen import c02classes as K
+from gen import histories as H
 
 ID = "C02"
 LEAN_TARGETS = ["CLModel.Props.C02"]
@@ -109,6 +110,19 @@ THEOREMS = [
      "inc: ANY list of blocks — #define records with optional attached `# ` comment block, free comment blocks, instructions (#filter "
      "emptyLines / #unfilter emptyLines switch ctx.filter_empty_lines; blank lines are white-space only while it is on) — each optionally "
      "preceded by an inert garbage line (no `#`): exactly the instruction/entity/comment/white-space/junk entries, views, junk = the garbage"),
+    # round 5: recovery on a long-lived parser object
+    (M, "C02.complete_pass_recovers_exactly",
+     "ONE parser object (C01M.stepG: Context objects, parser.ctx, suspended generator objects): after ANY history, readUnicode(t), then ANY "
+     "generator operations (passes started, consumed partially, interleaved, abandoned), a complete pass shows exactly the entries of "
+     "walk(t) (localizable view: its Entity/Junk entries) - all five regex formats, all texts"),
+    (M, "C02.history_roundtrip_properties",
+     "properties: the printed class of garbage_local_properties read on a used parser object, after any abandoned passes over it: a complete "
+     "pass shows exactly the expected entries (records unchanged, exactly the garbage as junk)"),
+    (M, "C02.history_roundtrip_po", "po: the same for the class of garbage_local_po"),
+    (M, "C02.history_roundtrip_ini", "ini: the same for the class of roundtrip_ini_full_partial"),
+    (M, "C02.history_roundtrip_inc",
+     "inc: the same for the class of roundtrip_inc_full_partial - also when an abandoned pass left filter_empty_lines set on the Context"),
+    (M, "C02.history_roundtrip_dtd", "dtd: the same for the class of roundtrip_dtd_full_partial"),
     (M, "C02.po_single_record_partial",
      "po: getNext at `msgid \"K\"\\nmsgstr \"V\"\\n` (K, V without quote, backslash, newline; not followed by a continuation "
      "fragment) is the entity with key span `msgid \"K\"`, value span `msgstr \"V\"`; one fragment each; eval = K resp. V; view"),
@@ -134,6 +148,8 @@ PARTIAL = [
 TRUSTED = [
     "hand-written models CLModel/Parser/{Base,Formats,Values}.lean (tied by the `parse`, `ents`, `props.val`, `po.unescape`, "
     "`comment.val` correspondences)",
+    "CLModel/Parser/C01Gen.lean: walk()/iter() as generator objects of one parser object (tied by `c02.hist` = views of every entry every "
+    "consuming operation of a history obtains, and by `c01.gen` = spans, on histories with abandoned, resumed, interleaved passes and re-reads)",
     "regexes and the known_escapes table are regenerated from /repo by the translator on every run",
 ]
 ASSUMPTIONS = [
@@ -149,9 +165,13 @@ LEVEL_TEXT = (
     "fragments, each block optionally preceded by an inert garbage line) parses back to exactly the printed records (every span, key, "
     "raw value, value, attached comment) with exactly the garbage lines as junk — including garbage directly in front of a comment whose "
     "text is a complete record (getJunk takes the earliest match of any of its expressions); the License rule holds for properties and "
-    "the base getNext (ini without extra hypothesis).  All seven formats, the full value "
+    "the base getNext (ini without extra hypothesis); the parser OBJECT is modelled with its Context objects and suspended generator "
+    "objects, and after any history of abandoned / partial / interleaved passes and re-reads a complete pass shows exactly those printed "
+    "records (recovery does not depend on what was consumed before).  All seven formats, the full value "
     "grammar, layouts, comments and garbage insertion are checked by a printer -> real parser -> expected-by-construction "
-    "oracle (bounded-exhaustive small documents + seeded random larger ones) and by model/implementation correspondence")
+    "oracle (bounded-exhaustive small documents + seeded random larger ones; also as HISTORIES on one parser object: passes abandoned "
+    "after 0, 1, 2, half, all-1, all entries by next/break/zip/islice/close, parse() + key lookups, readContents/readFile, explicit "
+    "interleaving, every result expected by construction) and by model/implementation correspondence")
 LEVEL_NOTE = (
     "trusted: Lean kernel, regex engine model (validated differentially), hand-written parser models (validated by "
     "correspondence on the same printed documents, incl. the class documents of the whole-file theorems whose expected entries are "
@@ -940,8 +960,8 @@ def rand_record(rng, fmt, i):
     return r
 
 
-def gen_random(ctx, fmt, count):
-    rng = ctx.rng("c02", fmt)
+def gen_random(ctx, fmt, count, rng=None):
+    rng = rng or ctx.rng("c02", fmt)
     docs = []
     for _ in range(count):
         n = rng.choice([1, 2, 3, 3, 4, 5, 6, 8])
@@ -1160,6 +1180,211 @@ def class_streams(out, ctx):
                 out.samples.append({"class": name, "text": d.text, "expected_entries": d.entries, "expected_views": d.views})
 
 
+# =============================================================================== round 5: histories on ONE parser object
+INC_SHARED_FLAG = "C02-inc-interleaved-walks-share-filter-flag"
+FTL_STALE_CTX = "C02-fluent-resumed-walk-uses-new-context"
+
+
+def hist_expect(doc):
+    """-> text, the expected localizable sequence BY CONSTRUCTION (records in order, the garbage where it was inserted), exp, junk"""
+    text, exp, junk = doc.render()
+    seq = [["E", e[0], e[1], e[2], e[3]] for e in exp]
+    if doc.garbage is not None:
+        seq.insert(doc.garbage[0], ["J", doc.garbage[1].strip()])
+    return text, seq, exp
+
+
+def hist_norm(doc, exp, shown):
+    """what the property compares of an entry the implementation showed: Fluent block values modulo their indentation, an
+    attached comment the property does not speak about (ANY), junk modulo surrounding white-space"""
+    out = []
+    keys = [e[0] for e in exp]
+    for x in shown:
+        if x[0] == "E" and x[1] in keys:
+            i = keys.index(x[1])
+            raw, val, c = x[2], x[3], x[4]
+            if doc.recs[i].x.get("block"):
+                raw = raw.lstrip(" ") if raw is not None else raw
+                val = val.lstrip(" ") if val is not None else val
+            if exp[i][3] == ANY:
+                c = ANY
+            out.append(["E", x[1], raw, val, c])
+        elif x[0] == "J":
+            out.append(["J", x[1].strip()])
+        else:
+            out.append(x)
+    return out
+
+
+def hist_oracle(fmt, ops, r, docs):
+    """docs: text -> (doc, seq, exp).  Every complete pass shows exactly the printed records (and exactly the garbage as junk),
+    whatever was consumed before; a pass abandoned after k entries shows the first k entries; parse() finds every record by its key."""
+    if r.get("exc") == "Hang":
+        return ("a history on one parser object does not terminate", None)
+    if "exc" in r:
+        return ("a history on one parser object raised %s: %s" % (r["exc"], r.get("msg")), None)
+    v = r["r"]
+    full_of = {}
+    for t, f in v["fresh"].items():
+        doc, seq, exp = docs[t]
+        full = hist_norm(doc, exp, f["full"])
+        if [x for x in full if x[0] in "EJ"] != seq:
+            return ("fresh parser object: entities/junk %r, expected by construction %r" % ([x for x in full if x[0] in "EJ"], seq), None)
+        full_of[t] = full
+
+    def expected_of(text, loc):
+        return docs[text][1] if loc else full_of[text]
+
+    tracked = H.track(ops, expected_of)
+    recs = []
+    for tr, rec in zip(tracked, v["recs"]):
+        t = tr.get("text")
+        rec = dict(rec)
+        if t is not None:
+            rec["shown"] = hist_norm(docs[t][0], docs[t][2], rec["shown"])
+        recs.append(rec)
+    if len(recs) != len(v["recs"]):
+        recs = v["recs"]
+    bad = H.judge(tracked, recs)
+    if bad:
+        # root cause of the one recorded candidate: DefinesParser keeps `filter_empty_lines` of a pass on the Context, so a pass
+        # that was SUSPENDED while another pass ran on the same Context object resumes with the other pass's flag
+        fid = INC_SHARED_FLAG if (fmt == "inc" and bad[1].get("exposed")) else None
+        # second candidate: FluentParser.walk builds every entity on `self.ctx` instead of the Context its pass started on, so a
+        # pass that is resumed after the parser has read another text shows keys/values cut out of the NEW text
+        if fmt == "ftl" and bad[1].get("stale"):
+            fid = FTL_STALE_CTX
+        return (bad[0], fid)
+    for tr, rec in zip(tracked, recs):
+        for j, idx, has in rec.get("lookups", []):
+            if idx != j or not has:
+                return ("parse() (operation %d): looking up the key of entry %d (%r) gives entry %r" % (tr["i"], j, rec["shown"][j][1:2], idx), None)
+    return None
+
+
+def safe_reads(h):
+    """readFile translates carriage returns (universal newlines): texts that contain one are read through readContents"""
+    return [["RC", op[1]] if op[0] == "RF" and "\r" in op[1] else op for op in h]
+
+
+def history_streams(out, ctx):
+    import time
+    t0 = time.time()
+    _history_streams(out, ctx)
+    out.notes.append("history streams took %.1f s" % (time.time() - t0))
+
+
+def _history_streams(out, ctx):
+    enc = C.enc
+    known = {k["id"] for k in C.load_known_findings().get("known", [])}
+    candidates = {}
+    # (a) printed documents of all seven formats: views
+    for fmt in FORMATS:
+        rng = ctx.rng("c02", "hist", fmt)
+        slow = fmt in ("ftl", "android")
+        docs = gen_random(ctx, fmt, ctx.n(18 if slow else 32, 300), rng)
+        ex = gen_exhaustive(ctx, fmt)
+        docs += [ex[rng.randrange(len(ex))] for _ in range(ctx.n(7 if slow else 12, 120))]
+        table = {}
+        for d in docs:
+            text, seq, exp = hist_expect(d)
+            table.setdefault(text, (d, seq, exp))
+        texts = [t for t in table if t]
+        cnt = {t: (2 * len(table[t][1]) + 1, len(table[t][1])) for t in table}
+        hs = []
+        for i, t in enumerate(texts):
+            hs += H.directed(t, cnt[t][0], cnt[t][1], texts[(i * 7 + 3) % len(texts)], i)
+        for _ in range(ctx.n(70 if slow else 130, 2000)):
+            hs.append(H.random_history(rng, texts, cnt))
+        hs = [safe_reads(h) for h in hs]
+        res = pool.pmap("impl.c02", "impl_history", [[fmt, h] for h in hs], timeout=6.0)
+        model = None
+        if fmt in REGEX_FORMATS and ctx.model_ok:
+            model = C.run_driver_parallel(["c02.hist %s %s" % (fmt, H.to_model(h, enc)) for h in hs])
+        out.count("hist.%s" % fmt, len(hs))
+        for i, (h, r) in enumerate(zip(hs, res)):
+            out.evaluations += 1
+            bad = hist_oracle(fmt, h, r, table)
+            if "r" in r:
+                out.nontrivial.add((fmt, "hist", json_key(h)))
+            if bad and bad[1] is not None and bad[1] not in known:
+                # a candidate finding that is not recorded in known_findings.json yet: reported in the evidence notes,
+                # judged (KNOWN-FINDING) as soon as it is recorded
+                candidates.setdefault(bad[1], {"what": bad[0], "input": {"fmt": fmt, "history": h}})
+                out.count("hist.%s.candidate.%s" % (fmt, bad[1]))
+                continue
+            if bad:
+                bad, fid = bad
+                out.violations.append({"what": "%s history on one parser object: %s" % (fmt, bad),
+                                       "input": {"fmt": fmt, "history": h,
+                                                 "docs": {t: [table[t][1], table[t][2], [bool(x.x.get("block")) for x in table[t][0].recs]]
+                                                          for t in {op[1] for op in h if op[0] in H.READS}}},
+                                       "finding": fid})
+                out.count("hist.%s.violations" % fmt)
+            elif model is not None and "r" in r and model[i] != r["r"]["canon"]:
+                out.disagreements.append({"op": "c02.hist", "fmt": fmt, "history": h, "impl": r["r"]["canon"], "model": model[i]})
+    # (b) the printed classes of the list theorems: every span of every entry of both views is known by construction
+    for name, (fmt, gen, per) in CLASSES.items():
+        rng = ctx.rng("c02", "hist", "class", name)
+        docs = [gen(rng) for _ in range(ctx.n(11, 150))]
+        table = {d.text: d for d in docs}
+        texts = [t for t in table if t]
+        cnt = {t: (len(table[t].entries), len([e for e in table[t].entries if e[0] in "EJ"])) for t in table}
+        hs = []
+        for i, t in enumerate(texts):
+            hs += H.directed(t, cnt[t][0], cnt[t][1], texts[(i * 7 + 3) % len(texts)], i)
+        if fmt == "inc":
+            for i, t in enumerate(texts):
+                hs += H.every_cut(t, cnt[t][0], i)
+        for _ in range(ctx.n(50, 800)):
+            hs.append(H.random_history(rng, texts, cnt))
+        hs = [safe_reads(h) for h in hs]
+        res = pool.pmap("impl.parse", "impl_history", [[fmt, h] for h in hs], timeout=6.0)
+        model = C.run_driver_parallel(["c01.gen %s %s" % (fmt, H.to_model(h, enc)) for h in hs]) if ctx.model_ok else None
+        out.count("hist.class.%s" % name, len(hs))
+
+        def expected_of(text, loc):
+            es = table[text].entries
+            return [e for e in es if e[0] in "EJ"] if loc else es
+
+        for i, (h, r) in enumerate(zip(hs, res)):
+            out.evaluations += 1
+            bad = fid = None
+            if r.get("exc") == "Hang":
+                bad = "a history on one parser object does not terminate"
+            elif "exc" in r:
+                bad = "a history on one parser object raised %s: %s" % (r["exc"], r.get("msg"))
+            else:
+                j = H.judge(H.track(h, expected_of), r["r"]["recs"])
+                bad = j[0] if j else None
+                out.nontrivial.add((name, "hist", r["r"]["canon"]))
+                if j and fmt == "inc" and j[1].get("exposed"):
+                    fid = INC_SHARED_FLAG
+            if bad and fid is not None and fid not in known:
+                candidates.setdefault(fid, {"what": bad, "input": {"fmt": fmt, "history": h}})
+                out.count("hist.class.%s.candidate.%s" % (name, fid))
+                continue
+            if bad:
+                out.violations.append({"what": "%s class %s, history on one parser object: %s" % (fmt, name, bad),
+                                       "input": {"fmt": fmt, "history": h, "class": name,
+                                                 "class_entries": {t: table[t].entries for t in {op[1] for op in h if op[0] in H.READS}}},
+                                       "finding": fid})
+                out.count("hist.class.%s.violations" % name)
+            elif model is not None and model[i] != r["r"]["canon"]:
+                out.disagreements.append({"op": "c01.gen(class %s)" % name, "fmt": fmt, "history": h, "impl": r["r"]["canon"], "model": model[i]})
+    _notes_candidates(out, candidates)
+
+
+def _notes_candidates(out, candidates):
+    for fid, c in candidates.items():
+        out.notes.append("CANDIDATE FINDING %s (not in known_findings.json, not judged): %s; first input %r" % (fid, c["what"], c["input"]))
+
+
+def json_key(h):
+    import json
+    return json.dumps(h, sort_keys=True)
+
+
 # =============================================================================== Android: comment groups, trailing comments, PIs, junk documents
 def android_extra_doc(rng):
     """-> text, expected entities, expected junk (None = one junk entry, any text), expected stand-alone comments.
@@ -1295,6 +1520,7 @@ def run(ctx):
                     out.disagreements.append({"op": "fluentwalk", "text": t, "impl": r["r"]["canon"], "model": mo})
     value_streams(out, ctx)
     class_streams(out, ctx)
+    history_streams(out, ctx)
     android_extra(out, ctx)
     probes(out)
     return out
@@ -1398,6 +1624,23 @@ def replay(payload):
     res = []
     for v in payload.get("violations", []):
         i = v["input"]
+        if "history" in i and "class_entries" in i:
+            r = pool.pmap("impl.parse", "impl_history", [[i["fmt"], i["history"]]], timeout=10.0)[0]
+            ce = i["class_entries"]
+            j = None
+            if "r" in r:
+                j = H.judge(H.track(i["history"], lambda t, loc: [e for e in ce[t] if e[0] in "EJ"] if loc else ce[t]), r["r"]["recs"])
+            res.append({"input": {"fmt": i["fmt"], "history": i["history"]}, "oracle": (j[0] if j else None) if "r" in r else str(r)})
+            continue
+        if "history" in i:
+            r = pool.pmap("impl.c02", "impl_history", [[i["fmt"], i["history"]]], timeout=10.0)[0]
+            table = {}
+            for t, (seq, exp, blocks) in i["docs"].items():
+                d = Doc(i["fmt"], [Rec(e[0], e[1], e[2], None, e[3], block=b) for e, b in zip(exp, blocks)], {}, None)
+                table[t] = (d, seq, exp)
+            bad = hist_oracle(i["fmt"], i["history"], r, table)
+            res.append({"input": {"fmt": i["fmt"], "history": i["history"]}, "oracle": bad[0] if bad else None})
+            continue
         if "kind" in i:
             got = I.impl_values(i["kind"], i["arg"])
             want = ref_props_unescape(i["arg"]) if i["kind"] == "props" else ref_po_unescape(i["arg"])
